@@ -300,35 +300,35 @@ for_in_stmt : FOR in_expr stmt_block
 */
 for_stmt : FOR for_stmt_elem SEMICOLON expr SEMICOLON for_stmt_elem stmt_block
 {
-	$$ = yylex.(*parser).newForStmt($2, $4, $6, $7)
+	$$ = yylex.(*parser).newForStmt($1, $2, $4, $6, $7)
 }
 | FOR for_stmt_elem SEMICOLON expr SEMICOLON stmt_block
 {
-	$$ = yylex.(*parser).newForStmt($2, $4, nil, $6)
+	$$ = yylex.(*parser).newForStmt($1, $2, $4, nil, $6)
 }
 | FOR SEMICOLON expr SEMICOLON for_stmt_elem stmt_block
 {
-	$$ = yylex.(*parser).newForStmt(nil, $3, $5, $6)
+	$$ = yylex.(*parser).newForStmt($1, nil, $3, $5, $6)
 }
 | FOR SEMICOLON expr SEMICOLON stmt_block
 {
-	$$ = yylex.(*parser).newForStmt(nil, $3, nil, $5)
+	$$ = yylex.(*parser).newForStmt($1, nil, $3, nil, $5)
 }
 | FOR for_stmt_elem SEMICOLON SEMICOLON for_stmt_elem stmt_block
 {
-	$$ = yylex.(*parser).newForStmt($2, nil, $5, $6)
+	$$ = yylex.(*parser).newForStmt($1, $2, nil, $5, $6)
 }
 | FOR for_stmt_elem SEMICOLON SEMICOLON stmt_block
 {
-	$$ = yylex.(*parser).newForStmt($2, nil, nil, $5)
+	$$ = yylex.(*parser).newForStmt($1, $2, nil, nil, $5)
 }
 | FOR SEMICOLON SEMICOLON for_stmt_elem stmt_block
 {
-	$$ = yylex.(*parser).newForStmt(nil, nil, $4, $5)
+	$$ = yylex.(*parser).newForStmt($1, nil, nil, $4, $5)
 }
 | FOR SEMICOLON SEMICOLON stmt_block
 {
-	$$ = yylex.(*parser).newForStmt(nil, nil, nil, $4)
+	$$ = yylex.(*parser).newForStmt($1, nil, nil, nil, $4)
 }
 ;
 
